@@ -74,6 +74,10 @@ pub struct Core {
     pub public_address: Option<SocketAddrV4>,
     pub firewalled: bool,
     pub server_mode: bool,
+    /// Verification hook: final state of the lookup that finished last.
+    #[cfg(mainline_verif)]
+    #[allow(clippy::type_complexity)]
+    pub verif_last_done: Option<(Id, (Vec<Node>, Vec<Node>, Vec<SocketAddrV4>, Vec<u32>))>,
 }
 
 impl Core {
@@ -99,6 +103,8 @@ impl Core {
             public_address: None,
             firewalled: true,
             server_mode,
+            #[cfg(mainline_verif)]
+            verif_last_done: None,
         }
     }
 
@@ -193,6 +199,11 @@ impl Core {
 
         for (id, closest_nodes) in done_get_queries {
             if let Some(query) = self.iterative_queries.remove(id) {
+                #[cfg(mainline_verif)]
+                {
+                    self.verif_last_done = Some((*id, query.verif_state()));
+                }
+
                 self.cache_iterative_query(&query, closest_nodes);
 
                 should_ping_alleged_new_address =
